@@ -23,6 +23,11 @@ const prelude = `(set-logic ALL)
 (declare-const zarr_Str_Str (Array Str Str))
 (assert (forall ((i Int)) (! (= (select zarr_Int_Str i) sempty) :pattern ((select zarr_Int_Str i)))))
 (assert (forall ((i Str)) (! (= (select zarr_Str_Str i) sempty) :pattern ((select zarr_Str_Str i)))))
+(declare-fun byte2str (Int) Str)
+(declare-fun rune2str (Int) Str)
+(declare-fun bytes2str ((Array Int Int) Int Int) Str)
+(assert (forall ((a (Array Int Int)) (o Int)) (! (= (bytes2str a o 1) (byte2str (select a o))) :pattern ((bytes2str a o 1)))))
+(assert (forall ((b Int)) (! (= (slen (byte2str b)) 1) :pattern ((byte2str b)))))
 (assert (= (slen sempty) 0))
 (assert (forall ((s Str)) (! (>= (slen s) 0) :pattern ((slen s)))))
 (assert (forall ((s Str)) (! (=> (= (slen s) 0) (= s sempty)) :pattern ((slen s)))))
